@@ -157,6 +157,22 @@ func genC17(e *emitter, tier string) {
 			return []NamedT{{"x", val([]int{1 + (g+k)%3, 3}, g, k)}}
 		}, G, K, 1))
 	}
+	// operators that derive per-call values from the current input (Conv auto_pad from the spatial size,
+	// Concat/Reshape/Slice from their operands): concurrent Runs with different dynamic extents
+	for _, G := range gs {
+		gap := &GraphJ{Inputs: []VInfoJ{{Name: "x", Dt: "f32", Dims: []any{"N", 1, "H", "W"}}},
+			Inits: []InitJ{{Name: "w", T: tinyT("f32", []int{2, 1, 3, 3}, 3)}, {Name: "b", T: vals("f32", []int{2}, 1, -1)}, {Name: "sh", T: idxT("i64", []int{2}, []int{0, -1})}},
+			Nodes: []NodeJ{
+				{Op: "Conv", Attrs: []Attr{{Name: "auto_pad", Type: "s", S: "SAME_UPPER"}, {Name: "strides", Type: "ints", Ints: []int64{2, 2}}}, Ins: []string{"x", "w", "b"}, Outs: []string{"c"}},
+				{Op: "Conv", Attrs: []Attr{{Name: "auto_pad", Type: "s", S: "SAME_LOWER"}, {Name: "strides", Type: "ints", Ints: []int64{2, 1}}}, Ins: []string{"x", "w"}, Outs: []string{"c2"}},
+				{Op: "Concat", Attrs: []Attr{{Name: "axis", Type: "i", I: 1}}, Ins: []string{"x", "x"}, Outs: []string{"cc"}},
+				{Op: "Reshape", Ins: []string{"c", "sh"}, Outs: []string{"r"}},
+				{Op: "Flatten", Attrs: []Attr{{Name: "axis", Type: "i", I: 2}}, Ins: []string{"cc"}, Outs: []string{"f"}},
+			}, Outputs: []string{"c", "c2", "cc", "r", "f"}}
+		e.emit(concCase("per-call-state", func() (*gonnx.Model, error) { return loadModel(gap) }, gap, func(g, k int) []NamedT {
+			return []NamedT{{"x", val([]int{1 + k%2, 1, 4 + (g+k)%4, 3 + (2*g+k)%5}, g, k)}}
+		}, G, K, 1))
+	}
 	nd := 6
 	if tier == "thorough" {
 		nd = 120
